@@ -101,11 +101,30 @@ Section FloatRuns.
     reverse_beamspread_2d_for_path NumFn (map (move_iface NumFn Q90f (1, 2, 3)) ifs_E1) ray4 [1; 2; 4] = Val 0x1.bee9056fb9c39p-2.
   Proof. repeat split; vm_compute; reflexivity. Qed.
 
-  (* E7: the floating-point outcome of the last line *)
+  (* E7: the floating-point outcome of the last line, every class of argument (numpy:
+     np.reciprocal(np.sqrt(d)) = nan, inf, 0.5, nan, -inf, 0.0, nan for the seven arguments) *)
   Example run_E7 :
     recip_sqrt_outcome NumF (-1) = NaN /\ recip_sqrt_outcome NumF 0 = PlusInf /\
-    recip_sqrt_outcome NumF 4 = Finite 0.5.
+    recip_sqrt_outcome NumF 4 = Finite 0.5 /\
+    recip_sqrt_outcome NumF nan = NaN /\ recip_sqrt_outcome NumF (-0) = MinusInf /\
+    recip_sqrt_outcome NumF infinity = Finite 0 /\ recip_sqrt_outcome NumF neg_infinity = NaN.
   Proof. repeat split; vm_compute; reflexivity. Qed.
+
+  (* E10: the same point of the same wall met twice (positions 1 and 2): the leg between the two
+     visits has length 0, its angle is arccos(0/0) = nan, gamma and the virtual distance are nan;
+     the functions return nan (no exception) and the outcome read from the object is NaN *)
+  Definition ifs_E10 : list (iface (T:=float)) :=
+    [mkf (0, 0, 0) I3f None; mkf (0, 0, 3) I3f (Some false); mkf (0, 0, 3) I3f (Some false); mkf (0, 0, 10) I3f None].
+  Example run_E10 :
+    path_legs NumFn ifs_E10 ray4 = Val [3; 0; 7] /\ path_thetas NumFn ifs_E10 ray4 = Val [0; nan] /\
+    beamspread_2d_for_path NumFn ifs_E10 ray4 [1; 2; 4] = Val nan /\
+    reverse_beamspread_2d_for_path NumFn ifs_E10 ray4 [1; 2; 4] = Val nan /\
+    beamspread_outcome NumFn [1; 2; 4] [3; 0; 7] [0; nan] = NaN.
+  Proof. repeat split; vm_compute; reflexivity. Qed.
+  (* the hypothesis of beamspread_outcome_nan is met by the reads of E10 *)
+  Definition vd_E10 : float := virtual_distance NumFn [3; 0; 7] (gamma_list NumFn [1; 2; 4] [0; nan]).
+  Lemma vd_E10_is_nan : neqb NumFn vd_E10 vd_E10 = false /\ recip_sqrt_outcome NumF (-0) = MinusInf.
+  Proof. split; vm_compute; reflexivity. Qed.
 End FloatRuns.
 
 (* ---- (2) real-number set-ups --------------------------------------------------------------- *)
